@@ -59,6 +59,8 @@ def run_case(case):
         tags.append('drivers_share_one_name')
     if desc.get('late_clocks'):
         tags.append('drivers_attached_after_first_getSimulator')
+    if desc.get('base_chain'):
+        tags.append('gated_driver_based_on_gated_driver')
     chunked = bool(case.get('chunked'))
     for t, vec in enumerate(seq):
         for w, v in zip(b.inputs, vec):
@@ -203,6 +205,21 @@ def cases(draw, max_nodes, n_cycles):
     if chunked:
         # hold every vector for 1..4 cycles
         seq = [v for v in seq for _ in range(draw(st.integers(1, 4)))][:3 * n_cycles]
+    # an enable that is the output of a register read by nothing else (the wire has no reader port at all: only the
+    # clock driver looks at it), the register itself living in the ungated part of the design
+    if desc['groups'] and draw(st.integers(0, 2)) == 0:
+        nodes = desc['nodes']
+        r = len(nodes)
+        nodes.append({'op': 'Reg', 'args': ['i0'], 'w': 1, 'p': {'en': False, 'rst': False}, 'g': -1})
+        desc['order'] = [r] + desc['order'] if draw(st.booleans()) else desc['order'] + [r]
+        gated = [gi for gi, g in enumerate(desc['groups']) if g.get('enable') is not None] or [0]
+        desc['groups'][draw(st.sampled_from(gated))]['enable'] = 'n%d' % r
+    if draw(st.integers(0, 2)) == 0:
+        desc['base_chain'] = True
+        # make sure a nested pair of gated groups exists when the hierarchy allows it
+        for gi, g in enumerate(desc['groups']):
+            if g['parent'] != -1 and g.get('enable') is None and desc['groups'][g['parent']].get('enable') is not None:
+                g['enable'] = 'i0'
     if draw(st.integers(0, 2)) == 0:
         desc['clock_names'] = 'shared'
     if draw(st.integers(0, 3)) == 0:
